@@ -884,7 +884,7 @@ GATES = {
     "C04": [["pool", "none", "3"], ["pool", "none", "1"], ["both", "2"]],
     "C08": [["pool", "pause", "3"], ["pool", "delete", "3"], ["pool", "clear", "2"],
             ["window", "clear"], ["window", "pause"], ["window", "delete"]],
-    "C03": [],
+    "C03": [["replace", "1"], ["replace", "3"]],
 }
 
 
@@ -924,6 +924,14 @@ def gate_phase(prop, binp, repeat=1):
                 if g["once_executions"] != 1 or g["once_listed"]:
                     why.append("WithBlockingExecution + WithWorkerLimit: the run-once job ran %d times (listed afterwards: %s)" % (
                         g["once_executions"], g["once_listed"]))
+            if g["scenario"] == "replace" and prop == "C03" and g["workers_busy"] and g["op_result"] == "ok":
+                if g["new_executions"] > g["new_fire_times_due"]:
+                    why.append("all %d workers were busy with the job registered under the key and the loop was holding one more of its fire "
+                               "times when ScheduleJob(Replace) put a different job with its own trigger (first fire time one hour away) under "
+                               "the key; when the workers became free the NEW job was executed %d times although %d fire times of its own "
+                               "trigger had come due (executions of the replaced job after the call: %d): the job that runs is not the one "
+                               "whose trigger produced the dequeued fire time" % (
+                                   g["workers"], g["new_executions"], g["new_fire_times_due"], g["old_starts_after"]))
             if g["scenario"] == "window" and prop == "C08" and g["entered_window"] and g["op_result"] == "ok":
                 if g["trigger_calls_after"] > 0:
                     why.append("%s returned Ok while fetchAndReschedule was between Pop and Push (op waited for the step: %s); afterwards the "
